@@ -208,8 +208,11 @@ impl ServerPublicKey {
   fn get_combined_pk_value(&self, md: u8) -> Result<Point, PPRFError> {
     let res = self.get(md);
     let md_pk = res.ok_or(PPRFError::BadTag { md })?;
-    let b = self.base_pk.decompress().unwrap();
-    let md = md_pk.decompress().unwrap();
+    let b = self
+      .base_pk
+      .decompress()
+      .ok_or(PPRFError::BadPointEncoding)?;
+    let md = md_pk.decompress().ok_or(PPRFError::BadPointEncoding)?;
     Ok(Point::from(b + md))
   }
 
